@@ -148,6 +148,8 @@ impl<S: RSSupport> RSQVector<S> {
             } else {
                 i -= cnt_1;
                 result += 128;
+                #[cfg(qwt_verif)]
+                crate::verif::probe(8);
             }
         }
         0
@@ -342,6 +344,8 @@ impl<S: RSSupport> SelectQuad for RSQVector<S> {
         }
 
         let (mut pos, rank) = self.rs_support.select_block(symbol, i + 1);
+        #[cfg(qwt_verif)]
+        crate::verif::sched_point();
 
         // if rank == i {
         //     return Some(pos);
